@@ -227,15 +227,18 @@ def judge(res, S, name_of):
     else:
         return [("unexpected-leading-literals", "-", "-")]
     sfx = [it[1] for it in res.suffix]
-    esc = (("lit", BS), ("cell",))
-    plain = (("cell",),)
+
+    def text(c, img):
+        # images are compared as text: a literal backslash and "the character itself" of the class BACKSLASH are the same thing
+        return "".join(sample_char(c) if it == ("cell",) else chr(it[1]) for it in img)
     if mode == "unquoted":
         if sfx:
             bad.append(("trailing-literals-without-opening-quote", "-", mode))
         if not S:
             bad.append(("empty-argument-vanishes", "-", mode))
         for c in S:
-            img = tuple(res.per_cell.get(c, ()))
+            img = text(c, res.per_cell.get(c, ()))
+            plain, esc = sample_char(c), "\\" + sample_char(c)
             cls = name_of[c][1]
             if img != plain:
                 bad.append(("altered-outside-quotes", name_of[c][0], mode))
@@ -245,7 +248,8 @@ def judge(res, S, name_of):
         if sfx != [DQ]:
             bad.append(("closing-quote", "-", mode))
         for c in S:
-            img = tuple(res.per_cell.get(c, ()))
+            img = text(c, res.per_cell.get(c, ()))
+            plain, esc = sample_char(c), "\\" + sample_char(c)
             cls = name_of[c][1]
             if cls in MUST_ESCAPE_QUOTED:
                 if img != esc:
